@@ -3,6 +3,8 @@ import FcpptModel.Spec.C19
 /-!
 Driver for C19 (history protocol; one context at a time).
 
+History operations (state = the current context and its log objects):
+
 * `reset`                      — fresh context, root level 3, default level-stream formatters     → `ok`
 * `ctx <lvl> <D|N|M>`          — fresh context with that root level; stream formatters: D = `default_level`
                                  on every level, N = none, M = `default_level` on even levels only    → `ok`
@@ -11,13 +13,37 @@ Driver for C19 (history protocol; one context at a time).
 * `objr <name> <fmt>`          — `object(context, params)`                                          → `obj=<id> lvl=<l> en=<bits>`
 * `objl <loc> <name> <fmt>`    — `object(context, location, params)`
 * `objc <id> <name> <fmt>`     — `object(objects[id], params)`
+* `del <id>`                   — destroy that log object (its id stays taken)                        → `ok`
 * `lvl <id>`                   — `object::level`, `enabled` for the six levels                      → `lvl=<l> en=<bits>`
 * `log <id> <level> <msg>`     — `object::log`                                                      → `emit=-` | `emit=<sink>|<text>`
-* `logm <id> <level> <msg>`    — the same through `FCPPT_LOG_<LEVEL>` (level_if_enabled.hpp)
+* `logm <id> <level> <msg>`    — the same through `FCPPT_LOG_<LEVEL>` (level_if_enabled.hpp); `ev` = how often the
+                                 message expression was evaluated                                    → `emit=… ev=<n>`
+* `logp <id> <level> <p> <q>`  — `object::log(level, out << p << |q| << q)` (several insertions)     → `emit=…`
+* `loga <id> <level> <p> <q>`  — `t = out << p; t = out << q; object::log(level, t)` (move assignment of the output) → `emit=…`
+* `fmt <id> <text>`            — `object::formatter()` applied to a text                            → `fmt=<text>` | `fmt=-`
+* `sink <id> <level> <fmt> <msg>` — `object::level_sink(level).log(out << msg, fmt)`; `same` = that stream is
+                                 `object::level_streams()[level]` and `context::level_streams()[level]` → `emit=<sink>|<text> same=1`
+* `cstr <level> <fmt> <msg>`   — `context::level_streams().get()[level].log(out << msg, fmt)`       → `emit=<sink>|<text>`
+
+Stateless operations (do not touch the current context):
+
+* `lfs <s>` `lts <k>` `lout <k>` `lin <text>` — `level_from_string`, `level_to_string`, `operator<<`, `operator>>`
+* `loc <prog>`                 — location algebra: `e` | `n:<name>` first, then `d:<name>` (`/=`), `s:<name>` (`operator/`),
+                                 `a:<name>` (`l = l / name`), `m:<name>` (`l = std::move(l) / name`), `x` (`/=` with a copy of the first entry); → `str=<string()> n=<size> elems=<a|b> ok=1`
+* `chain <f> <g> <text>`       — `format::chain(f, g)` → `r=<text>` | `r=-`;  `fn <f> <text>` — one formatter applied
+* `ts <text>`                  — `format::time_stamp()`                                             → `ts=ok rest=<text>`
+* `ls <own> <add> <0|1> <msg>` — a free-standing `level_stream` on sink A, redirected to sink B by `sink()` if 1
+* `dstream <k>`, `dls <k> <msg>` — `default_stream`, `default_level_streams()[k]`
+* `params <name> <fmt> <text>`, `pnf <name> <text>` — `parameters`, `parameters_no_function`
+* `enum <k> <e|f> <root> <cfg> <prefix> <alphabet> <locs>` — every history `prefix ++ w`, `w` ∈ alphabet^k, observed after
+                                 every step (`e`) or at the end (`f`): number of histories and an FNV digest  → `n=<n> h=<hex>`
+* `case <root> <cfg> <ops> <obs>` — one history, result line of the final operation `obs`
 
 `<loc>` = `-` (empty) or names joined by `.`; the name `_` stands for the empty string.
-`<lvl>` = `0`…`5` or `-` (disabled).  `<fmt>` = `-` (no formatter) or a tag `T`: `s ↦ T<s>`.
-In the emitted text a newline is printed as `\n`.
+`<lvl>` = `0`…`5` or `-` (disabled).  `<fmt>` = `-` (no formatter), `P:<p>` (`format::prefix`), `I:<pre>:<suf>`
+(`format::inserter`), `L:<k>` (`format::default_level`) or a tag `T`: `s ↦ T<s>`.
+In texts a newline is printed as `\n`; the input of `lin` ends with `$`, `_` stands for a blank and `~` for a newline.
+Inside `enum`/`case` the tokens of an operation are joined by `,` and operations by `;`.
 -/
 namespace Fcppt.C19.Drv
 open Fcppt.Proto
@@ -26,7 +52,7 @@ structure St where
   root : Level
   tree : Tree
   cfg : Char
-  objs : Array Obj
+  objs : Array (Option Obj)     -- `none` = destroyed
   sets : List (Loc × Level)     -- for the run-time cross-check against the spec
 
 def fresh (root : Level) (cfg : Char) : St := ⟨root, mkRoot root, cfg, #[], []⟩
@@ -50,7 +76,15 @@ def parseLvlNat (s : String) : Option Nat :=
   | none => none
 
 def parseFmt (s : String) : OptFn :=
-  if s = "-" then none else some (fun t => s ++ "<" ++ t ++ ">")
+  if s = "-" then none else
+  match s.splitOn ":" with
+  | ["P", p] => some (prefixFn p)
+  | ["I", a, b] => some (inserter a b)
+  | ["L", k] =>
+    match parseLvlNat k with
+    | some l => some (defaultLevel l)
+    | none => some (fun t => s ++ "<" ++ t ++ ">")
+  | _ => some (fun t => s ++ "<" ++ t ++ ">")
 
 def streams (cfg : Char) (l : Nat) : OptFn :=
   if cfg = 'D' then some (defaultLevel l)
@@ -63,6 +97,11 @@ def showLevel : Level → String
 
 def esc (s : String) : String := (s.replace "\\" "\\\\").replace "\n" "\\n"
 
+def showOpt (f : OptFn) (t : String) : String :=
+  match f with
+  | none => "-"
+  | some g => esc (g t)
+
 def objLine (s : St) (o : Obj) : String :=
   match objLevel s.tree o with
   | .error f => "fault:" ++ f.name
@@ -72,22 +111,114 @@ def objLine (s : St) (o : Obj) : String :=
     if l = levelOf s.root s.sets o.node then s!"lvl={showLevel l} en={bits}" else "MODEL-SPEC-MISMATCH"
 
 def addObj (s : St) (r : Tree × Obj) : St × String :=
-  let s' := { s with tree := r.1, objs := s.objs.push r.2 }
+  let s' := { s with tree := r.1, objs := s.objs.push (some r.2) }
   (s', s!"obj={s.objs.size} " ++ objLine s' r.2)
 
+def getObj (s : St) (id : String) : Option Obj :=
+  match id.toNat? with
+  | some i => (s.objs[i]?).join
+  | none => none
+
+def emitLine (l : Nat) : Option String → String
+  | none => "emit=-"
+  | some t => s!"emit={l}|{esc t}"
+
 def doLog (s : St) (id lvl msg : String) : String :=
-  match id.toNat?, parseLvlNat lvl with
-  | some i, some l =>
-    match s.objs[i]? with
-    | none => "bad-op"
-    | some o =>
-      match objLog s.tree (streams s.cfg) o l msg with
-      | .error f => "fault:" ++ f.name
-      | .ok none => "emit=-"
-      | .ok (some t) => s!"emit={l}|{esc t}"
+  match getObj s id, parseLvlNat lvl with
+  | some o, some l =>
+    match objLog s.tree (streams s.cfg) o l msg with
+    | .error f => "fault:" ++ f.name
+    | .ok r => emitLine l r
   | _, _ => "bad-op"
 
-def handle (s : St) (toks : List String) : St × String :=
+def doLogMacro (s : St) (id lvl msg : String) : String :=
+  match getObj s id, parseLvlNat lvl with
+  | some o, some l =>
+    match logMacro s.tree (streams s.cfg) o l msg with
+    | .error f => "fault:" ++ f.name
+    | .ok (r, n) => emitLine l r ++ s!" ev={n}"
+  | _, _ => "bad-op"
+
+/-- text of `lin`: `_` = blank, `~` = newline -/
+def unescIn (s : String) : List Char := s.toList.map fun c => if c = '_' then ' ' else if c = '~' then '\n' else c
+def escOut (cs : List Char) : String := String.ofList (cs.map fun c => if c = ' ' then '_' else if c = '\n' then '~' else c)
+
+/-- the location program of `loc` -/
+def locProg : Option Loc → List String → Option Loc
+  | cur, [] => cur
+  | none, t :: ts =>
+    if t = "e" then locProg (some []) ts
+    else match t.splitOn ":" with
+      | ["n", n] => locProg (some (locOfName (parseName n))) ts
+      | _ => none
+  | some l, t :: ts =>
+    if t = "x" then locProg (some (locPush l (l.headD ""))) ts
+    else match t.splitOn ":" with
+      | ["d", n] => locProg (some (locPush l (parseName n))) ts
+      | ["s", n] => locProg (some (locPush l (parseName n))) ts
+      | ["a", n] => locProg (some (locPush l (parseName n))) ts
+      | ["m", n] => locProg (some (locPush l (parseName n))) ts
+      | _ => none
+
+def showName (s : String) : String := if s = "" then "_" else s
+
+def stateless (toks : List String) : Option String :=
+  match toks with
+  | ["lfs", s] => some ("lvl=" ++ showLevel (levelFromString (parseName s)))
+  | ["lts", k] =>
+    match parseLvlNat k with
+    | some l => match levelToString l with
+      | .ok n => some ("name=" ++ n)
+      | .error f => some ("fault:" ++ f.name)
+    | none => some "bad-op"
+  | ["lout", k] =>
+    match parseLvlNat k with
+    | some l => match levelToString l with
+      | .ok n => some ("out=" ++ n)
+      | .error f => some ("fault:" ++ f.name)
+    | none => some "bad-op"
+  | ["lin", text] =>
+    if text.endsWith "$" then
+      let (v, fail, rest) := levelInput 5 (unescIn (text.dropEnd 1).toString)
+      some (s!"lvl={v} fail={b01 fail}" ++ (if fail then "" else " rest=" ++ escOut rest ++ "$"))
+    else some "bad-op"
+  | ["loc", prog] =>
+    match locProg none (prog.splitOn ",") with
+    | some l => some (s!"str={showName (locString l)} n={l.length} elems={if l.isEmpty then "-" else "|".intercalate (l.map showName)} ok=1")
+    | none => some "bad-op"
+  | ["chain", f, g, text] => some ("r=" ++ showOpt (chain (parseFmt f) (parseFmt g)) text)
+  | ["fn", f, text] => some ("r=" ++ showOpt (parseFmt f) text)
+  | ["ts", text] =>
+    let r := timeStamp "NOW" text
+    some (if r.startsWith "NOW: " then "ts=ok rest=" ++ esc (r.drop 5).toString else "ts=bad")
+  | ["ls", own, add, redir, msg] =>
+    if redir = "0" ∨ redir = "1" then
+      let s0 : LevelStream := ⟨0, parseFmt own⟩
+      let s1 := if redir = "1" then s0.sink 1 else s0
+      let (d, text) := s1.log (parseFmt add) msg
+      let a := if d = 0 then esc text else "-"
+      let b := if d = 1 then esc text else "-"
+      some (s!"A={a} B={b} g={if s1.dest = 0 then "A" else "B"} f={showOpt s1.fmt "x"}")
+    else some "bad-op"
+  | ["dstream", k] =>
+    match parseLvlNat k with
+    | some l => some (if defaultStream l then "cerr" else "clog")
+    | none => some "bad-op"
+  | ["dls", k, msg] =>
+    match parseLvlNat k with
+    | some l =>
+      let (d, f) := defaultLevelStreams l
+      some (s!"s={if d then "cerr" else "clog"} f={showOpt f msg}")
+    | none => some "bad-op"
+  | ["params", name, f, text] =>
+    let p : Params := ⟨parseName name, parseFmt f⟩
+    some (s!"name={showName p.name} f={showOpt p.fmt text}")
+  | ["pnf", name, text] =>
+    let p := paramsNoFunction (parseName name)
+    some (s!"name={showName p.name} f={showOpt p.fmt text}")
+  | _ => none
+
+def handleCore (s : St) (toks : List String) : St × String :=
   match toks with
   | ["reset"] => (fresh (some 3) 'D', "ok")
   | ["ctx", l, c] =>
@@ -111,22 +242,111 @@ def handle (s : St) (toks : List String) : St × String :=
     | some p => addObj s (objAt s.tree p (parseName name) (parseFmt f))
     | none => (s, "bad-op")
   | ["objc", id, name, f] =>
-    match id.toNat? with
-    | some i =>
-      match s.objs[i]? with
-      | some p => addObj s (objChild s.tree p (parseName name) (parseFmt f))
-      | none => (s, "bad-op")
+    match getObj s id with
+    | some p => addObj s (objChild s.tree p (parseName name) (parseFmt f))
     | none => (s, "bad-op")
+  | ["del", id] =>
+    match id.toNat?, getObj s id with
+    | some i, some _ => ({ s with objs := s.objs.set! i none }, "ok")
+    | _, _ => (s, "bad-op")
   | ["lvl", id] =>
-    match id.toNat? with
-    | some i =>
-      match s.objs[i]? with
-      | some o => (s, objLine s o)
-      | none => (s, "bad-op")
+    match getObj s id with
+    | some o => (s, objLine s o)
     | none => (s, "bad-op")
   | ["log", id, l, msg] => (s, doLog s id l msg)
-  | ["logm", id, l, msg] => (s, doLog s id l msg)
-  | _ => (s, "bad-op")
+  | ["logm", id, l, msg] => (s, doLogMacro s id l msg)
+  | ["logp", id, l, p, q] => (s, doLog s id l (outParts [p, toString q.utf8ByteSize, q]))
+  | ["fmt", id, text] =>
+    match getObj s id with
+    | some o => (s, "fmt=" ++ showOpt o.fmt text)
+    | none => (s, "bad-op")
+  | ["loga", id, l, p, q] => (s, doLog s id l (outAssign [p] [q]))
+  | ["sink", id, l, f, msg] =>
+    match getObj s id, parseLvlNat l with
+    | some o, some k =>
+      -- `@`: the object's own formatter (the very same optional_function object) as additional formatter
+      let add := if f = "@" then o.fmt else parseFmt f
+      (s, emitLine k (some (sinkLog (streams s.cfg) k add msg)) ++ " same=1")
+    | _, _ => (s, "bad-op")
+  | ["cstr", l, f, msg] =>
+    match parseLvlNat l with
+    | some k => (s, emitLine k (some (sinkLog (streams s.cfg) k (parseFmt f) msg)))
+    | none => (s, "bad-op")
+  | _ =>
+    match stateless toks with
+    | some r => (s, r)
+    | none => (s, "bad-op")
+
+/-! ### exhaustive enumeration of small histories -/
+
+def splitOp (s : String) : List String := s.splitOn ","
+
+def parseOps (s : String) : List (List String) := if s = "-" then [] else (s.splitOn ";").map splitOp
+
+def feed (h : UInt64) (line : String) : UInt64 := fnv h (line ++ "\n")
+
+/-- what is looked at after a step: `get` of every location of the list, then for every live object `lvl` and one
+    `log` / `logm` (alternating) at level `(id + step) % 6` -/
+def observe (s : St) (locs : List String) (step : Nat) (h : UInt64) : UInt64 :=
+  let h := locs.foldl (fun h l => feed h (handleCore s ["get", l]).2) h
+  (List.range s.objs.size).foldl (fun h i =>
+    match s.objs[i]? with
+    | some (some _) =>
+      let h := feed h (handleCore s ["lvl", toString i]).2
+      let op := if (i + step) % 2 = 0 then "log" else "logm"
+      feed h (handleCore s [op, toString i, toString ((i + step) % 6), "m"]).2
+    | _ => h) h
+
+/-- run the operations of a prefix; `none` if one of them is rejected -/
+def runOps (each : Bool) (locs : List String) : List (List String) → St → Nat → UInt64 → Option (St × Nat × UInt64)
+  | [], s, step, h => some (s, step, h)
+  | op :: ops, s, step, h =>
+    let (s', r) := handleCore s op
+    if r = "bad-op" then none else
+    let h := feed h r
+    let h := if each then observe s' locs (step + 1) h else h
+    runOps each locs ops s' (step + 1) h
+
+/-- all extensions by `k` operations of the alphabet; a rejected operation (an `objc` whose parent does not exist)
+    prunes its subtree.  Accumulates (number of histories, combined digest). -/
+def enumRec (each : Bool) (locs : List String) (alpha : List (List String)) :
+    Nat → St → Nat → UInt64 → Nat × UInt64 → Nat × UInt64
+  | 0, s, step, h, (n, tot) =>
+    let h := if each then h else observe s locs step h
+    (n + 1, (tot ^^^ h) * 1099511628211)
+  | k + 1, s, step, h, acc =>
+    alpha.foldl (fun acc op =>
+      let (s', r) := handleCore s op
+      if r = "bad-op" then acc else
+      let h := feed h r
+      let h := if each then observe s' locs (step + 1) h else h
+      enumRec each locs alpha k s' (step + 1) h acc) acc
+
+def handle (s : St) (toks : List String) : St × String :=
+  match toks with
+  | ["enum", k, mode, root, cfg, pre, alpha, locs] =>
+    match k.toNat?, parseLevel root with
+    | some k, some r =>
+      if (mode = "e" ∨ mode = "f") ∧ (cfg = "D" ∨ cfg = "N" ∨ cfg = "M") ∧ k ≤ 6 then
+        let each := mode = "e"
+        let ls := locs.splitOn ","
+        match runOps each ls (parseOps pre) (fresh r cfg.front) 0 fnvInit with
+        | none => (s, "bad-op")
+        | some (s0, step, h) =>
+          let (n, tot) := enumRec each ls (parseOps alpha) k s0 step h (0, fnvInit)
+          (fresh (some 3) 'D', s!"n={n} h={hex64 tot}")
+      else (s, "bad-op")
+    | _, _ => (s, "bad-op")
+  | ["case", root, cfg, ops, obs] =>
+    match parseLevel root with
+    | some r =>
+      if cfg = "D" ∨ cfg = "N" ∨ cfg = "M" then
+        match runOps false [] (parseOps ops) (fresh r cfg.front) 0 fnvInit with
+        | none => (fresh (some 3) 'D', "bad-op")
+        | some (s0, _, _) => (fresh (some 3) 'D', (handleCore s0 (splitOp obs)).2)
+      else (s, "bad-op")
+    | none => (s, "bad-op")
+  | _ => handleCore s toks
 
 def main : IO Unit := Proto.runState (fresh (some 3) 'D') handle
 
